@@ -8,14 +8,14 @@ import numpy as np
 import vlib
 
 EPS = np.finfo(float).eps
-XS = [0.0, -37.5, np.array([1e-3, 1.0, 100.0]), np.array([[0.5, -2.0], [1e4, 3.0]])]
+XS = [0.0, -37.5, np.array([1e-3, 1.0, 100.0]), np.array([[0.5, -2.0], [1e4, 3.0]]), 100.0, np.array([7.0, -0.25, 3e3])]
 
 
 def q2f(q):
     return None if q[1] == 0 else q[0] / q[1]
 
 
-def build(opts, spiral=False):
+def build(opts, spiral=False, theta=None):
     from numdifftools.step_generators import MinStepGenerator, MaxStepGenerator
     from numdifftools.limits import CStepGenerator
     kw = dict(base_step=q2f(opts['base']), step_ratio=q2f(opts['ratio']),
@@ -24,7 +24,9 @@ def build(opts, spiral=False):
               check_num_steps=opts['check'], scale=q2f(opts['scale']))
     cls = dict(Min=MinStepGenerator, Max=MaxStepGenerator, C=CStepGenerator)[opts['cls']]
     if spiral:
-        kw['path'] = 'spiral'          # dtheta left at its documented default pi/8
+        kw['path'] = 'spiral'          # dtheta left at its documented default pi/8 unless the case names another angle
+        if theta and list(theta) != [1, 8]:
+            kw['dtheta'] = np.pi * theta[0] / theta[1]
     return cls(**kw)
 
 
@@ -44,7 +46,7 @@ def expected(rec, x):
     nom = np.full(xa.shape, nv[0] / nv[1]) if nk == 'user' else np.maximum(np.log(1.718281828459045 + np.abs(xa)), 1.0)
     ratio = rec['ratio'][0] / rec['ratio'][1]
     if rec['fam'] == 'spiral':
-        ratio = np.exp(1j * np.pi / 8) * ratio
+        ratio = np.exp(1j * np.pi * rec['theta'][0] / rec['theta'][1]) * ratio
     b = base * nom
     if rec['exact']:
         b = (b + 1.0) - 1.0
@@ -90,13 +92,16 @@ def work(group):
     bad = []
     n = 0
     try:
-        gen = build_deriv(recs[0]) if recs[0]['fam'] == 'deriv' else build(recs[0]['opts'], spiral=recs[0]['fam'] == 'spiral')
+        gen = build_deriv(recs[0]) if recs[0]['fam'] == 'deriv' else build(recs[0]['opts'], spiral=recs[0]['fam'] == 'spiral', theta=recs[0].get('theta'))
     except Exception as ex:
         return [(recs[0], 'constructor raised %r' % (ex,))], 0
     calls = [(r, xi) for r in recs for xi in range(len(XS))]
     rnd.shuffle(calls)
     if len(calls) > 400:
         calls = calls[:400]
+    # the same call signature at consecutive DIFFERENT points of the same shape (nothing of an earlier x may survive)
+    for r in recs[:6]:
+        calls += [(r, 0), (r, 1), (r, 4), (r, 2), (r, 5), (r, 2)]
     for r, xi in calls:
         why = compare(r, gen, XS[xi])
         n += 1
@@ -171,7 +176,7 @@ def run(tier, rep):
     vlib.require_ok(res)
     groups = collections.OrderedDict()
     for r in res.records:
-        k = (r['fam'], repr(sorted(r['opts'].items())), (r['m'] if r['fam'] == 'deriv' else ''), (r['n'], r['o']) if r['fam'] == 'deriv' else ())
+        k = (r['fam'], repr(sorted(r['opts'].items())), (r['m'] if r['fam'] == 'deriv' else ''), (r['n'], r['o']) if r['fam'] == 'deriv' else (), tuple(r['theta']))
         groups.setdefault(k, []).append(r)
     items = [(repr(k), v, seed + i) for i, (k, v) in enumerate(groups.items())]
     out = vlib.pool_map(work, items)
